@@ -19,7 +19,7 @@ THEOREMS = [N + t for t in (
     "terminateSH_neutral", "unregisterH_neutral", "kickH_neutral", "closeH_neutral", "sleepH_neutral",
     "subscribeH_neutral", "unsubscribeH_neutral", "publishPost_accept", "publish_eq_head_tail", "publishH_neutral",
     "preConnect_neutral")]
-COMPS = ["brokerhooks"]      # the Lean oracle; the Go side is drive_broker (+ hooks.go)
+COMPS = ["brokerhooks", "hookrestore"]      # Lean oracles; the Go side of brokerhooks is drive_broker (+ hooks.go)
 GO_EXTRA = ["broker"]
 NEEDS_FACTS = ["Hooks"]
 
@@ -935,9 +935,44 @@ class HookStream(core.Stream):
         return core.run_parallel([core.drive_exe("broker")] + self.drive_args, cases, timeout=self.timeout)
 
 
+# ---- sessions restored from persistence (the broker boots on a non-empty store): their queues' OnMsgDropped notifier is built
+# during start-up, it must already be the hook the plugins have wrapped (seed C14-3)
+
+def gen_restore(rng):
+    ops = [f"new maxq={rng.choice([1, 2, 3, 5])} plugins={rng.choice([1, 2, 3])} restore={rng.choice([1, 1, 2, 3])} base={rng.choice([0, 1])}"]
+    for _ in range(rng.randint(1, 5)):
+        ops.append(f"pub {rng.choice([1, 2, 3, 6])} {rng.choice([0, 1, 1, 2])}")
+    return ops
+
+def pred_restore(ops, out):
+    if len(out) != len(ops) or (out and out[0].startswith("CRASH")):
+        return "implementation crashed or hung: " + (out[0] if out else "")
+    kv = dict(x.split("=", 1) for x in ops[0].split()[1:])
+    maxq, k, r, base = int(kv["maxq"]), int(kv["plugins"]), int(kv["restore"]), kv.get("base") == "1"
+    offered = 0
+    for op, o in zip(ops[1:], out[1:]):
+        m = re.match(r"dropped=(\d+) wrappers=([\d,]*) base=(\d+)$", o)
+        if not m:
+            return f"`{op}` -> `{o}`"
+        n = int(op.split()[1])
+        want = r * (max(0, offered + n - maxq) - max(0, offered - maxq))
+        offered += n
+        d, ws, b = int(m.group(1)), [int(x) for x in m.group(2).split(",") if x], int(m.group(3))
+        if d != want:
+            return f"`{op}`: the broker counts {d} dropped messages, the {r} restored queues of capacity {maxq} must drop {want}"
+        if len(ws) != k or any(w != d for w in ws):
+            return (f"`{op}`: {d} messages were dropped from the queues of sessions restored at start-up, the OnMsgDropped wrappers of the "
+                    f"{k} plugins were called {ws} times (each must fire exactly once per event)")
+        if b != (d if base else 0):
+            return f"`{op}`: {d} drops, base OnMsgDropped hook called {b} times"
+    return None
+
 def streams(tier):
     n = 200 if tier == "quick" else 3000
-    return [(HookStream("broker-hooks", "brokerhooks", gen, full_predicate, nontrivial, canon=canon, keep_prefix=3), n)]
+    nr = 60 if tier == "quick" else 600
+    return [(HookStream("broker-hooks", "brokerhooks", gen, full_predicate, nontrivial, canon=canon, keep_prefix=3), n),
+            (core.Stream("hook-restore", "hookrestore", gen_restore, pred_restore,
+                         lambda ops, out: any("dropped=" in o and not o.startswith("dropped=0 ") for o in out), keep_prefix=1), nr)]
 
 
 def seed_from_facts(r):
@@ -969,7 +1004,7 @@ def run(r):
         core.build_lean(["oracle_brokerhooks"], r.log)
         facts = seed_from_facts(r)
         r.notes.append("generated-facts obligations broken: " + facts)
-    rc, out = core.build_go(r.log, ["broker"])
+    rc, out = core.build_go(r.log, ["broker", "hookrestore"])
     if rc != 0:
         r.violation("go-build", "# harness does not build against /repo any more\n" + out[-3000:], False, "go build failed")
         return r.finish(rule=RULE, assumptions=ASSUME)
@@ -978,7 +1013,10 @@ def run(r):
     return r.finish(rule=RULE, assumptions=ASSUME)
 
 
-RULE = ("wire scenarios on a real in-process broker with 1-3 recording plugins in every order of plugin_order (+/- recording base hooks): "
+RULE = ("stream hook-restore: a broker booted on a store that already holds 1-3 sessions (custom persistence factory), 1-3 plugins with an "
+        "OnMsgDropped wrapper, messages published through the Publisher API overflow the restored queues; wrapper / base hook call counts "
+        "against the C10 queue model and the predicate's own arithmetic. "
+        "wire scenarios on a real in-process broker with 1-3 recording plugins in every order of plugin_order (+/- recording base hooks): "
         "every plugin exposes EVERY wrapper kind (HookWrapper built by reflection), logs pre/post around the next hook and imposes scripted "
         "verdicts: OnAccept false; OnBasicAuth / OnEnhancedAuth / OnAuth / OnReAuth reject with a reason code, plain error, nil response, "
         "continue; OnSubscribe hook error, per-topic rejection, granted QoS; OnUnsubscribe hook error, per-topic rejection; OnMsgArrived "
